@@ -85,12 +85,19 @@ dm_m_ret(flag) == /\ mpc = "joined" /\ flag = (IF perr \/ werr THEN 1 ELSE 0)
                   /\ ret' = (IF flag = 1 THEN "err" ELSE "ok") /\ mpc' = "done"
                   /\ UNCHANGED <<cfg, ppc, nxt, chan, closed, wpc, cur, nd, mux, perr, werr, cells, wgc>>
 
-Next == \/ dm_p_start \/ dm_p_close \/ dm_m_wait
-        \/ \E p \in 1..(NPairs + 1) : dm_p_send(p) \/ dm_p_err(p)
-        \/ \E w \in Workers : dm_w_start(w) \/ dm_w_dist(w) \/ dm_w_err(w) \/ dm_w_lock(w) \/ w_unlock(w) \/ dm_w_done(w)
-                              \/ \E p \in Pairs : dm_w_recv(w, p)
-        \/ \E f \in {0, 1} : dm_m_ret(f)
-        \/ (mpc = "done" /\ UNCHANGED vars)
+\* (one named disjunct per hook point, so that TLC's coverage report shows every one of them firing)
+PSend == \E p \in 1..(NPairs + 1) : dm_p_send(p)
+PErr == \E p \in 1..(NPairs + 1) : dm_p_err(p)
+WStart == \E w \in Workers : dm_w_start(w)
+WRecv == \E w \in Workers : \E p \in Pairs : dm_w_recv(w, p)
+WDist == \E w \in Workers : dm_w_dist(w)
+WErr == \E w \in Workers : dm_w_err(w)
+WLock == \E w \in Workers : dm_w_lock(w)
+WUnlock == \E w \in Workers : w_unlock(w)
+WDone == \E w \in Workers : dm_w_done(w)
+MRet == \E f \in {0, 1} : dm_m_ret(f)
+Finished == mpc = "done" /\ UNCHANGED vars
+Next == dm_p_start \/ PSend \/ PErr \/ dm_p_close \/ WStart \/ WRecv \/ WDist \/ WErr \/ WLock \/ WUnlock \/ WDone \/ dm_m_wait \/ MRet \/ Finished
 
 \* ---- properties ----
 Termination == <>(mpc = "done")
